@@ -37,11 +37,34 @@ pub fn shade_plain(f: Frag<f32>) -> Option<re::math::color::Color4> {
     Some(pack(f.var.to_bits()))
 }
 
+/// A cut-out material: triangles whose interpolated attribute has bit 12 of
+/// its f32 pattern set discard every other pixel (checkerboard). The rule is
+/// a function of (attribute bits, pixel), so the monitors' pixel models can
+/// re-evaluate it from a layer's colour word.
+#[inline]
+pub fn cutout_discards(attr_bits: u32, x: usize, y: usize) -> bool {
+    (attr_bits >> 12) & 1 == 1 && (x + y) % 2 == 0
+}
+
+pub fn shade_cutout(f: Frag<f32>) -> Option<re::math::color::Color4> {
+    if cutout_discards(f.var.to_bits(), f.pos.x() as usize, f.pos.y() as usize) {
+        None
+    } else {
+        Some(pack(f.var.to_bits()))
+    }
+}
+
 /// Renders every triangle alone (no culling). With `nearest` the layer
 /// keeps, per pixel, the nearest of the triangle's *own* fragments (a clip
 /// fan may draw a pixel on an internal edge twice, inside the band C04
 /// exempts); otherwise the depth test is off and the last fragment stays.
 pub fn solo_layers(fl: &Flat, nearest: bool) -> Result<Vec<Layer>, String> {
+    solo_layers_with(fl, nearest, false)
+}
+
+/// With `cutout`, the layers are rendered with the cut-out shader: a layer
+/// then holds the nearest (or last) of its own *non-discarded* fragments.
+pub fn solo_layers_with(fl: &Flat, nearest: bool, cutout: bool) -> Result<Vec<Layer>, String> {
     let to_screen = viewport(pt2(0, 0)..pt2(fl.w, fl.h));
     let mut out = vec![];
     for t in &fl.sc.tris {
@@ -65,7 +88,11 @@ pub fn solo_layers(fl: &Flat, nearest: bool) -> Result<Vec<Layer>, String> {
             render_clip(&fl.sc, &[*t], counting, &ctx_c, to_screen, &mut cv_c, Tk::FbOwned)?;
         }
         let multi: Vec<bool> = counts.borrow().iter().map(|c| *c > 1).collect();
-        render_clip(&fl.sc, &[*t], shade_plain, &ctx, to_screen, &mut cv, Tk::FbOwned)?;
+        if cutout {
+            render_clip(&fl.sc, &[*t], shade_cutout, &ctx, to_screen, &mut cv, Tk::FbOwned)?;
+        } else {
+            render_clip(&fl.sc, &[*t], shade_plain, &ctx, to_screen, &mut cv, Tk::FbOwned)?;
+        }
         let z: Vec<f32> = cv.dep.data().to_vec();
         let col: Vec<u32> = cv.col.data().to_vec();
         let covered = z.iter().filter(|z| z.to_bits() != Z_MARK.to_bits()).count();
